@@ -155,3 +155,52 @@ def backwardErrorDense (doc : Nat → Nat → Rat) (n : Nat) (v rhs : List Rat) 
   (maxL ((List.zipWith (· - ·) av rhs).map absQ), maxL rs * maxL (v.map absQ) + maxL (rhs.map absQ))
 
 end PbVerif.Whittaker
+
+namespace PbVerif.Whittaker
+
+/-! ### the 2-D penalty as `two_d/_whittaker_utils.py: PenalizedSystem2D.reset_diagonals` builds it
+(`kron(lam_r·P_r, identity(n)) + kron(identity(m), lam_c·P_c)`), and `add_diagonal`
+(`penalty.setdiag(main_diagonal + w)`) -/
+
+/-- entry (a, b) of `scipy.sparse.kron(A, B)` for an `n × n` right factor: `A[a // n, b // n] · B[a % n, b % n]` -/
+def kronE (A B : Nat → Nat → Rat) (n a b : Nat) : Rat := A (a / n) (b / n) * B (a % n) (b % n)
+/-- `scipy.sparse.identity` -/
+def idE (i j : Nat) : Rat := if i = j then 1 else 0
+
+/-- `self.penalty = P_rows + P_columns` -/
+def pen2d (m n dr dc : Nat) (lamr lamc : Rat) (a b : Nat) : Rat :=
+  kronE (fun p q => lamr * dtdFastQ m dr p q) idE n a b + kronE idE (fun p q => lamc * dtdFastQ n dc p q) n a b
+
+/-- the `lhs` handed to `direct_solve`: the penalty with `main_diagonal + weights` on the diagonal -/
+def asm2d (m n dr dc : Nat) (lamr lamc : Rat) (w : List Rat) (a b : Nat) : Rat :=
+  if a = b then pen2d m n dr dc lamr lamc a a + w.getD a 0 else pen2d m n dr dc lamr lamc a b
+
+def asm2dRows (m n dr dc : Nat) (lamr lamc : Rat) (w : List Rat) : List (List Rat) :=
+  (List.range (m * n)).map fun (a : Nat) => (List.range (m * n)).map fun (b : Nat) => asm2d m n dr dc lamr lamc w a b
+
+end PbVerif.Whittaker
+
+namespace PbVerif.Whittaker
+open PbVerif.Banded
+
+/-! ### jbcd (`morphological.py: _Morphological.jbcd`): two banded systems per iteration, both `c · penalty` with a constant added to
+the main row (`_setup_whittaker(y, lam=1, diff_order)`, so `whittaker_system.penalty` is `1 · D'D` in the layout of the solver:
+lower, full, or full reversed under pentapy) -/
+
+/-- `lhs = c * whittaker_system.penalty; lhs[main_diag_idx] += diag` -/
+def asmJbcd (n d : Nat) (c diag : Rat) (lower reversed : Bool) : List (List Rat) :=
+  let pen := scale c (scale 1 (bandsQ n d lower))
+  let pen := if reversed then pen.reverse else pen
+  let mainIdx := if lower then 0 else d
+  addRowC pen mainIdx diag
+
+/-- `lhs_1 = gamma * penalty; lhs_1[main] += 1` (signal step) — NOTE the code uses `gamma`, the documentation `2·gamma` -/
+def asmJbcdSignal (n d : Nat) (gamma : Rat) (lower reversed : Bool) : List (List Rat) := asmJbcd n d gamma 1 lower reversed
+/-- `lhs_2 = (2 * beta) * penalty; lhs_2[main] += 1 + 2 * alpha` (baseline step) -/
+def asmJbcdBaseline (n d : Nat) (alpha beta : Rat) (lower reversed : Bool) : List (List Rat) :=
+  asmJbcd n d (2 * beta) (1 + 2 * alpha) lower reversed
+
+/-- `diag·I + c·D'D` -/
+def docJbcd (n d : Nat) (c diag : Rat) (i j : Nat) : Rat := delta i j diag + c * dtdQ n d i j
+
+end PbVerif.Whittaker
